@@ -2339,7 +2339,20 @@ class Problem(object, metaclass=ProblemMetaclass):
                     else:
                         val = outputs[name]
 
-                    for abs_name in resolver.absnames(name):
+                    abs_names = resolver.absnames(name)
+
+                    if not resolver.is_prom(name, 'output'):
+                        # 'name' is the promoted name of one or more inputs that share an
+                        # automatically created source, and 'val' is the value of that source, in its
+                        # units. Set it once through the promoted name: the inputs may have units of
+                        # their own (set_input_defaults).
+                        if not all(set_later(abs_name) for abs_name in abs_names):
+                            src = model.get_source(abs_names[0])
+                            meta = model._var_allprocs_abs2meta['output'].get(src)  # None: discrete
+                            model.set_val(name, val, units=None if meta is None else meta['units'])
+                        continue
+
+                    for abs_name in abs_names:
                         if set_later(abs_name):
                             continue
 
